@@ -145,9 +145,7 @@ theorem ack_exiting (pick : Pick) {s : State} (h : s.pc = .exiting) (ok : Bool) 
   rw [h]
   simp only
   refine ⟨by first | rfl | trivial, ?_⟩
-  have f1 := pubShutdown_frame (s.allocStep pick (.releasePeer s.peer)).1
-  have f2 := emit_frame (s.allocStep pick (.releasePeer s.peer)).1.pubShutdown [Event.exitCallback]
-  exact Res.fields (f2.builders.trans f1.builders) (f2.token.trans f1.token) (f2.maxRetries.trans f1.maxRetries)
+  exact Res.fields rfl rfl rfl
 
 theorem drain_done (pick : Pick) : ∀ (fuel : Nat) (s : State),
     (State.drain pick fuel s).done = s.done ∧ (State.drain pick fuel s).maxRetries = s.maxRetries
@@ -240,14 +238,14 @@ theorem run_exitprog (pick : Pick) {s : State} (hpc : s.pc = .idle) (hd : s.done
         exact hres _ rfl
   · -- the done branch
     simp only [if_true]
-    have key : ∀ s1 : State, s1.builders.length ≤ builders.length → s1.maxRetries = maxRetries → s1.done = true →
-        ((if s1.token then 1 else 0) ≤ (if token then 1 else 0)) →
+    have key : ∀ s1 : State, s1.builders.length * (3 * maxRetries + 3) + (if s1.token then 1 else 0) ≤
+          builders.length * (3 * maxRetries + 3) + (if token then 1 else 0) → s1.maxRetries = maxRetries → s1.done = true →
         V2 ({ (if s1.sender = true then s1.emit [Event.senderClosed] else s1) with pc := Pc.exiting } : State) <
           V2 (⟨peer, maxRetries, builders, nextTopic, token, true, sender, .idle, closedStreams, waiters,
               nextTicket, topics, pubClosed, alloc, log⟩ : State) ∧
         ({ (if s1.sender = true then s1.emit [Event.senderClosed] else s1) with pc := Pc.exiting } : State).done = true ∧
         ({ (if s1.sender = true then s1.emit [Event.senderClosed] else s1) with pc := Pc.exiting } : State).pc ≠ .exited := by
-      intro s1 hl hm hd1 ht
+      intro s1 hl hm hd1
       have eb : (if s1.sender = true then s1.emit [Event.senderClosed] else s1).builders = s1.builders := by split <;> rfl
       have em : (if s1.sender = true then s1.emit [Event.senderClosed] else s1).maxRetries = s1.maxRetries := by split <;> rfl
       have et : (if s1.sender = true then s1.emit [Event.senderClosed] else s1).token = s1.token := by split <;> rfl
@@ -258,22 +256,24 @@ theorem run_exitprog (pick : Pick) {s : State} (hpc : s.pc = .idle) (hd : s.done
           (if (if s1.sender = true then s1.emit [Event.senderClosed] else s1).token then 1 else 0) + 1 <
         builders.length * (3 * maxRetries + 3) + 0 + (if token then 1 else 0) + 2
       rw [eb, em, et, hm]
-      have := Nat.mul_le_mul_right (3 * maxRetries + 3) hl
       omega
-    split
-    · next htk =>
-      have htk' : token = true := htk
-      subst htk'
-      obtain ⟨d1, d2⟩ := drain_done pick builders.length (⟨peer, maxRetries, builders, nextTopic, false, true, sender, .idle, closedStreams, waiters,
-          nextTicket, topics, pubClosed, alloc, log⟩ : State)
-      have hnil := drain_builders_nil pick builders.length (⟨peer, maxRetries, builders, nextTopic, false, true, sender, .idle, closedStreams, waiters,
-          nextTicket, topics, pubClosed, alloc, log⟩ : State) (Nat.le_refl _)
-      apply key
-      · rw [hnil]; simp
-      · exact d2
-      · exact d1
-      · split <;> simp
-    · exact key _ (Nat.le_refl _) rfl rfl (Nat.le_refl _)
+    obtain ⟨d1, d2⟩ := drain_done pick builders.length (⟨peer, maxRetries, builders, nextTopic, token, true, sender, .idle, closedStreams, waiters,
+        nextTicket, topics, pubClosed, alloc, log⟩ : State)
+    have hnil := drain_builders_nil pick builders.length (⟨peer, maxRetries, builders, nextTopic, token, true, sender, .idle, closedStreams, waiters,
+        nextTicket, topics, pubClosed, alloc, log⟩ : State) (Nat.le_refl _)
+    apply key
+    · cases builders with
+      | nil => exact Nat.le_refl _
+      | cons b r =>
+        rw [hnil]
+        have h1 : (if (State.drain pick (b :: r).length (⟨peer, maxRetries, b :: r, nextTopic, token, true, sender, .idle, closedStreams, waiters,
+            nextTicket, topics, pubClosed, alloc, log⟩ : State)).token = true then 1 else 0) ≤ 1 := by split <;> omega
+        have h2 : 1 * (3 * maxRetries + 3) ≤ (b :: r).length * (3 * maxRetries + 3) :=
+          Nat.mul_le_mul_right _ (by simp)
+        simp only [List.length_nil, Nat.zero_mul, Nat.zero_add]
+        omega
+    · exact d2
+    · exact d1
 
 /-- the system in which callers no longer build on this queue (it is out of the peer table) -/
 def LSysQ (pick : Pick) : Sys State Act where
